@@ -19,6 +19,7 @@
 import IgrisModel.C15.Lemmas9
 import IgrisModel.C15.Lemmas10
 import IgrisModel.C15.Lemmas11
+import IgrisModel.C15.Lemmas12
 namespace Igris.C15
 open Igris.Proto
 
@@ -675,5 +676,67 @@ theorem wide_terminal_is_one_row (W : Nat) (s : Screen) (bs : List Byte) (h : s.
   wfeed_eq W [] s bs h
 
 example : Screen.blank.hw ((Vterm.init 6 2 false).echoed [0x61, 0x62, 0x63, ESC, 0x5b, 0x44, 0x78]) = 6 := by decide
+
+/- "…drives a VT100 screen model to show the same line and cursor" on a REAL
+terminal, i.e. one with W columns and auto-wrap.  The echo strategy (re-print the
+right part, `ESC[nD` back) cannot cross a row boundary: `ESC[nD` does not move up
+a row.  `_partial` = the terminal is wide enough for prompt + longest line + `^C`
+(`|prompt| + cap + 3 ≤ W`); for a narrower terminal the statement is false
+(`narrow_screen_witness`, finding C15-narrow-screen). -/
+
+/-- THE SCREEN CLAUSE ON A W-COLUMN TERMINAL WITH AUTO-WRAP (the reference
+emulator `WScreen`), `W ≥ |prompt| + cap + 3`: after every key sequence (keys and
+prompt as in `screen_matches_partial`) the current row is exactly prompt ++ line,
+the cursor column is |prompt| + cursor, no wrap is pending and the escape parser
+is in its ground state (state 2); blank row, column 0 while vtermxx owes the prompt. -/
+theorem screen_matches_wide_partial (cap depth : Nat) (hcap : 1 ≤ cap) (hd : 1 ≤ depth) (cxx : Bool)
+    (prompt : List Byte) (keys : List Byte) (hP : AllP prompt) (hk : ∀ k ∈ keys, screenKey k = true)
+    (W : Nat) (hW : prompt.length + cap + 3 ≤ W) :
+    let v0 := Vterm.init cap depth cxx prompt
+    let v := v0.run keys
+    let w := WScreen.feed W WScreen.blank (v0.echoed keys)
+    (v.state = 2 → w.cells = prompt ++ v.rl.line.text ∧ w.col = prompt.length + v.rl.line.cursor ∧
+      w.pending = false ∧ w.ps = .ground) ∧
+    (v.state ≠ 2 → w.cells = [] ∧ w.col = 0 ∧ w.pending = false ∧ w.ps = .ground) := by
+  intro v0 v w
+  have h0 := init_sim cap depth hcap hd cxx prompt
+  have hs0 : SInv (Vterm.init cap depth cxx prompt).prompt (Vterm.init cap depth cxx prompt) Screen.blank (Ref.init depth) := by
+    unfold SInv
+    rw [if_neg (show ¬ ((Vterm.init cap depth cxx prompt).state = 2) from fun e => by simp [Vterm.init] at e)]
+    rfl
+  have hhw := run_hw cap depth hd v0 (Ref.init depth) Screen.blank keys h0 (refP_init depth) rfl hP hk hs0
+    (by simp [Screen.blank])
+  have hpr : v0.prompt = prompt := rfl
+  rw [hpr] at hhw
+  obtain ⟨ab, e⟩ := wfeed_eq W [] Screen.blank (v0.echoed keys) (by omega)
+  have hw : w = WScreen.ofScreen ab (Screen.blank.feed (v0.echoed keys)) := e
+  obtain ⟨m1, m2⟩ := screen_matches_partial cap depth hcap hd cxx prompt keys hP hk
+  constructor
+  · intro h2
+    rw [hw, m1 h2]
+    exact ⟨rfl, rfl, rfl, rfl⟩
+  · intro h2
+    rw [hw, m2 h2]
+    exact ⟨rfl, rfl, rfl, rfl⟩
+
+/-- non-vacuity: prompt "$ ", an 8-byte line, 13 columns; "abcdefg" fills the line, Left, Left, "x" is refused -/
+example : (WScreen.feed 13 WScreen.blank ((Vterm.init 8 1 false).echoed
+      [0x61, 0x62, 0x63, 0x64, 0x65, 0x66, 0x67, ESC, 0x5b, 0x44, ESC, 0x5b, 0x44, 0x78])).cells =
+      [0x24, 0x20, 0x61, 0x62, 0x63, 0x64, 0x65, 0x66, 0x67] ∧
+    (WScreen.feed 13 WScreen.blank ((Vterm.init 8 1 false).echoed
+      [0x61, 0x62, 0x63, 0x64, 0x65, 0x66, 0x67, ESC, 0x5b, 0x44, ESC, 0x5b, 0x44, 0x78])).col = 7 := by decide
+
+/-- ON A NARROWER TERMINAL THE CLAUSE IS FALSE.  6 columns, prompt "$ ", an 8-byte
+line: "abcde" (the `e` wraps to the second row), Left, Left (`ESC[D` stops at
+column 0 of the second row instead of going back to the `d`), "x": the editor's
+line is "abcxde", a correct display would be the rows "$ abcx" / "de", the
+terminal shows "$ abcd" / "xde". -/
+theorem narrow_screen_witness :
+    let keys : List Byte := [0x61, 0x62, 0x63, 0x64, 0x65, ESC, 0x5b, 0x44, ESC, 0x5b, 0x44, 0x78]
+    let w := WScreen.feed 6 WScreen.blank ((Vterm.init 8 1 false).echoed keys)
+    ((Vterm.init 8 1 false).run keys).rl.line.text = [0x61, 0x62, 0x63, 0x78, 0x64, 0x65] ∧
+    w.above.reverse ++ [w.cells] = [[0x24, 0x20, 0x61, 0x62, 0x63, 0x64], [0x78, 0x64, 0x65]] ∧
+    WScreen.chunks 6 8 ([0x24, 0x20] ++ ((Vterm.init 8 1 false).run keys).rl.line.text) =
+      [[0x24, 0x20, 0x61, 0x62, 0x63, 0x78], [0x64, 0x65]] := by decide
 
 end Igris.C15
